@@ -11,6 +11,8 @@
 -/
 import Scc.PMoves.Model
 
+set_option autoImplicit false
+
 namespace Scc.PMoves
 
 /-! ## A. trees: edges, back sources, semantics of the emitted moves -/
